@@ -322,8 +322,22 @@ def _resid_slot(e):
     return None
 
 
-def _py_atomizer(env, extra=None):
+def _self_aliases(fnode):
+    """locals initialised from / stored back to a self attribute: local name -> attribute name without underscore"""
+    out = {}
+    for s in walk_stmts(fnode.body):
+        if isinstance(s, ast.Assign) and len(s.targets) == 1:
+            t, v = s.targets[0], s.value
+            if isinstance(t, ast.Name) and is_self_attr(v):
+                out.setdefault(t.id, v.attr.lstrip("_"))
+            elif is_self_attr(t) and isinstance(v, ast.Name):
+                out.setdefault(v.id, t.attr.lstrip("_"))
+    return out
+
+
+def _py_atomizer(env, extra=None, alias=None):
     extra = extra or {}
+    alias = alias or {}
 
     def val(e):
         if isinstance(e, ast.Name) and e.id in env:
@@ -348,7 +362,7 @@ def _py_atomizer(env, extra=None):
             if v is not None:
                 return ("abs", v)
         if isinstance(e, ast.Name):
-            return ("sym", e.id)
+            return ("sym", alias.get(e.id, e.id))
         raise AnalysisError("term %s of an FKM guard is not understood" % norm_text(e))
     return atom
 
@@ -373,9 +387,12 @@ def _r1_r2_fkm(ctx):
             closing = s
     if closing is None:
         raise AnalysisError("FKMDetector.process: closing branch not found")
-    atom = _py_atomizer(env)
-    last0 = [n for n, v in env.items() if v == SL(-1)]
-    last1 = [n for n, v in env.items() if v == SL(-2)]
+    alias = _self_aliases(fi.node)
+    atom = _py_atomizer(env, alias=alias)
+    ir_names = [n for n, a in alias.items() if a == "ir"]
+    mx_names = [n for n, a in alias.items() if a == "max_turn"]
+    if not ir_names or not mx_names:
+        raise AnalysisError("FKMDetector.process: locals mirroring self._ir / self._max_turn not found")
     m = {"c0": ("absdiff", frozenset([IN, SL(-1)])), "p01": ("absdiff", frozenset([SL(-1), SL(-2)])),
          "a0": ("abs", SL(-1)), "a1": ("abs", SL(-2)), "ac": ("abs", IN), "mx": ("sym", "max_turn")}
     _cmp_pred(ctx, fi, closing, closing.test, atom, "c0 >= p01", m, "Clormann-Seeger closing guard", )
@@ -384,7 +401,7 @@ def _r1_r2_fkm(ctx):
         raise AnalysisError("FKMDetector.process: continue-closing test not found")
     _cmp_pred(ctx, fi, cont[0], cont[0].test, atom, "a0 < mx and a1 < mx", m, "continue-closing test")
     prim = [s for s in walk_stmts(loop.body) if isinstance(s, ast.If) and any(
-        isinstance(x, ast.AugAssign) and isinstance(x.target, ast.Name) and x.target.id == "ir" for x in s.body)]
+        isinstance(x, ast.AugAssign) and isinstance(x.target, ast.Name) and x.target.id in ir_names for x in s.body)]
     if len(prim) != 1:
         raise AnalysisError("FKMDetector.process: primary-counter branch not found")
     _cmp_pred(ctx, fi, prim[0], prim[0].test, atom, "ac > mx", m, "primary-path counter test")
@@ -410,7 +427,7 @@ def _r1_r2_fkm(ctx):
                      text="fkm closing record")
     # running maximum update: max_turn = max(|current|, max_turn)
     mt = [s for s in loop.body if isinstance(s, ast.Assign) and isinstance(s.targets[0], ast.Name)
-          and s.targets[0].id == "max_turn"]
+          and s.targets[0].id in mx_names]
     ok = False
     if len(mt) == 1 and isinstance(mt[0].value, ast.Call) and call_name(mt[0].value) in ("max", "np.maximum") \
             and len(mt[0].value.args) == 2:
@@ -559,6 +576,10 @@ def _r3_conservation(ctx):
                      text="fkm push once")
     cfg = CFG(fi.node)
     inner = [s for s in loop.body if isinstance(s, ast.While)]
+    rvc = [c for c in calls_in(fi.node) if isinstance(c.func, ast.Attribute) and c.func.attr == "record_values"]
+    if len(rvc) != 1 or len(rvc[0].args) != 2 or not all(isinstance(a, ast.Name) for a in rvc[0].args):
+        raise AnalysisError("FKMDetector.process: record_values(from, to) call not found")
+    from_name, to_name = rvc[0].args[0].id, rvc[0].args[1].id
     for w in inner:
         for path, how in _loop_paths(cfg, w):
             pops = fa = ta = 0
@@ -570,9 +591,9 @@ def _r3_conservation(ctx):
                     if c.func.attr == "pop" and is_self_attr(c.func.value, "_residuals"):
                         pops += 1
                     if c.func.attr == "append" and isinstance(c.func.value, ast.Name):
-                        if c.func.value.id.startswith("from"):
+                        if c.func.value.id == from_name:
                             fa += 1
-                        elif c.func.value.id.startswith("to"):
+                        elif c.func.value.id == to_name:
                             ta += 1
             if pops == 2 * fa == 2 * ta:
                 ctx.holds(fi, w, "inner path: %d pops, %d recorded" % (pops, fa))
